@@ -7,6 +7,8 @@ Decided clauses (DESIGN.md section 3 / C18):
   C18.a2  on every path through `save`, every fallible computation precedes the
           first open-for-write (all-or-nothing over main file and sub-files)
   C18.b   check_overwrite(P) dominates every open-for-write of path P
+  C18.c   the Path objects save constructs are pure checks: no constructor call
+          enables Path.__init__'s own open-for-write probe (read from Path.__init__)
 Not decided: I/O errors during the writes themselves; re-parse equals original.
 """
 
@@ -16,7 +18,7 @@ import ast
 from typing import Dict, List, Optional, Set, Tuple
 
 from .report import Ctx
-from .srcmodel import FuncNode, call_leaf, call_name, calls_in, contains, src, stmt_of, walk_local
+from .srcmodel import AnalysisError, FuncNode, call_leaf, call_name, calls_in, contains, src, stmt_of, walk_local
 from .util import enclosing_withs, is_open_for_write, nested_defs, root_name
 
 # calls that can fail because of the *configuration* being saved
@@ -35,8 +37,68 @@ FALLIBLE_LEAVES = {
 SAVE = "_core:ArgumentParser.save"
 
 
+_HIDDEN: Dict[str, Set[str]] = {}
+
+
+def path_ctor_write_flags(ctx: Ctx) -> Set[str]:
+    """Mode flags under which constructing a `Path` itself opens the target for writing (a destructive probe).
+    Read from Path.__init__: every `.open(<p>, <mode>)` whose mode is a constant write mode (then: every
+    construction, reported as '*'), or a local built by filtering the constructor's `mode` through a literal
+    set of characters (then: the write characters of that set)."""
+    key = ctx.repo.root if hasattr(ctx.repo, "root") else "repo"
+    if key in _HIDDEN:
+        return _HIDDEN[key]
+    init = ctx.func("_util:Path.__init__")
+    flags: Set[str] = set()
+    for c in calls_in(init):
+        if call_leaf(c) != "open" or not isinstance(c.func, ast.Attribute):
+            continue
+        if is_open_for_write(c):
+            flags.add("*")
+            continue
+        marg = c.args[1] if len(c.args) > 1 else next((k.value for k in c.keywords if k.arg == "mode"), None)
+        if marg is None or isinstance(marg, ast.Constant):
+            continue
+        if not isinstance(marg, ast.Name):
+            raise AnalysisError(f"Path.__init__: cannot read the mode of {src(c)}")
+        defs = [s for s in walk_local(init) if isinstance(s, ast.Assign) and any(isinstance(t, ast.Name) and t.id == marg.id for t in s.targets)]
+        if len(defs) != 1:
+            raise AnalysisError(f"Path.__init__: mode `{marg.id}` of {src(c)} has {len(defs)} definitions")
+        comps = [g for x in ast.walk(defs[0].value) if isinstance(x, (ast.GeneratorExp, ast.ListComp)) for g in x.generators]
+        allowed: Optional[Set[str]] = None
+        for g in comps:
+            if isinstance(g.iter, ast.Name) and g.iter.id == "mode":
+                for t in g.ifs:
+                    if isinstance(t, ast.Compare) and isinstance(t.ops[0], ast.In) and isinstance(t.comparators[0], (ast.Set, ast.Tuple, ast.List, ast.Constant)):
+                        comp = t.comparators[0]
+                        allowed = set(comp.value) if isinstance(comp, ast.Constant) else {e.value for e in comp.elts if isinstance(e, ast.Constant)}
+        if allowed is None:
+            raise AnalysisError(f"Path.__init__: cannot bound the mode `{marg.id}` of {src(c)}")
+        flags |= allowed & set("wax+")
+    _HIDDEN[key] = flags
+    return flags
+
+
+def _hidden_write(ctx: Ctx, c: ast.Call) -> bool:
+    """`Path(<p>, mode=<const>)` whose constant mode enables the constructor's own open-for-write."""
+    if not (isinstance(c.func, ast.Name) and c.func.id == "Path"):
+        return False
+    flags = path_ctor_write_flags(ctx)
+    if not flags:
+        return False
+    m = c.args[1] if len(c.args) > 1 else next((k.value for k in c.keywords if k.arg == "mode"), None)
+    if m is None:
+        return "*" in flags
+    if not (isinstance(m, ast.Constant) and isinstance(m.value, str)):
+        return True  # unknown mode: may enable the probe
+    return "*" in flags or bool(set(m.value) & flags)
+
+
+_CTX: List[Ctx] = []
+
+
 def _w_calls(fn: ast.AST) -> List[ast.Call]:
-    return [c for c in calls_in(fn) if is_open_for_write(c)]
+    return [c for c in calls_in(fn) if is_open_for_write(c) or (_CTX and _hidden_write(_CTX[0], c))]
 
 
 def _f_calls(fn: ast.AST) -> List[ast.Call]:
@@ -44,6 +106,7 @@ def _f_calls(fn: ast.AST) -> List[ast.Call]:
 
 
 def run(ctx: Ctx) -> int:
+    _CTX[:] = [ctx]
     save = ctx.func(SAVE)
     nested = nested_defs(save)
     units: Dict[str, ast.AST] = {"save": save}
@@ -116,7 +179,7 @@ def run(ctx: Ctx) -> int:
         for c in calls_in(fn):
             ids = g.nodes_containing(c)
             leaf = call_leaf(c)
-            isw = is_open_for_write(c) or (isinstance(c.func, ast.Name) and leaf in nested and hasW.get(leaf))
+            isw = is_open_for_write(c) or _hidden_write(ctx, c) or (isinstance(c.func, ast.Name) and leaf in nested and hasW.get(leaf))
             isf = leaf in FALLIBLE_LEAVES or (isinstance(c.func, ast.Name) and leaf in nested and hasF.get(leaf))
             for i in ids:
                 if isw:
@@ -154,6 +217,23 @@ def run(ctx: Ctx) -> int:
             ok, why = _overwrite_checked(ctx, units, uname, fn, wc)
             ctx.oblige("C18.b", ok, wc, why, fn=fn)
     ctx.floor("C18.b", n_b, 2)
+
+    # ---- C18.c: no hidden writes: the Path objects `save` constructs are pure checks -----------------------
+    flags = path_ctor_write_flags(ctx)
+    n_c = 0
+    for uname, fn in units.items():
+        for c in calls_in(fn):
+            if isinstance(c.func, ast.Name) and c.func.id == "Path":
+                n_c += 1
+                bad = _hidden_write(ctx, c)
+                ctx.oblige(
+                    "C18.c",
+                    not bad,
+                    c,
+                    f"constructing {src(c, 50)} only inspects the file system" if not bad else f"constructing {src(c, 50)} opens the target for writing (Path.__init__ probes fsspec paths with fsspec.open(path, <mode flags {sorted(flags)}>).open()): the existing file is truncated - or an empty one created - before anything was validated or serialised",
+                    fn=fn,
+                )
+    ctx.floor("C18.c-path-constructions", n_c, 3)
 
     # check_overwrite itself must refuse: raise under (not overwrite and isfile)
     co = nested.get("check_overwrite")
